@@ -15,7 +15,7 @@ import fnspec as F
 
 ID = "C08"
 MODULE = "JmesVerif.Props.C08"
-THEOREMS = ["C08_identity_query", "C08_parse_print", "C08_parse_print_pretty", "C08_parse_print_noFloat", "C08_string_roundtrip", "C08_value_roundtrip"]
+THEOREMS = ["C08_identity_query", "C08_parse_print", "C08_parse_print_pretty", "C08_parse_print_noFloat", "C08_string_roundtrip", "C08_value_roundtrip", "C08_parser_exact_domain", "C08_float_roundtrip_exact_domain", "C08_parse_print_exact_domain", "C08_float_roundtrip_counterexample"]
 TRUSTED_BASE = [
     "Lean 4.33 kernel; axioms propext, Classical.choice, Quot.sound only",
     "Model/JsonText.lean and Model/JsonPrint.lean model serde_json 1.0.151 (default features) — the decimal<->double algorithms are serde_json's, "
